@@ -191,7 +191,8 @@ func (rd *redisDict) get(key string) (value any, exists bool) {
 }
 
 func (rd *redisDict) pickRandomItems(count, sparseThreshold int) (items []*redisDictItem) {
-	items = make([]*redisDictItem, 0, count)
+	// the result grows as it is filled: the count comes from the client
+	items = make([]*redisDictItem, 0, min(count, 1024))
 
 	// Algorithm that is expensive when sparseness is high; we rely on
 	// the hash function to reduce that possibility.
